@@ -824,6 +824,22 @@ func createStream(n int) {
 				a = mutate(a)
 			}
 		}
+		if chance(0.05) {
+			// an array of objects as a member value: one element loses, gains or changes a member
+			k := spellStr(pick("items", "a", "l"), g)
+			el := func(extra string) string { return `{"id":1` + extra + `}` }
+			e1 := pick(`,"tag":"x"`, `,"tag":"x","n":null`, `,"t":{"u":1}`, `,"tag":[1]`)
+			e2 := pick("", "", `,"tag":"y"`, `,"other":true`, `,"tag":"x","more":1`)
+			pre := pick("", `{"id":0},`, `1,`)
+			a = []byte(`{` + k + `:[` + pre + el(e1) + `],"z":1}`)
+			b = []byte(`{` + k + `:[` + pre + el(e2) + `],"z":1}`)
+			if chance(0.5) {
+				a, b = b, a
+			}
+			if chance(0.3) {
+				a, b = []byte(`{"w":`+string(a)+`}`), []byte(`{"w":`+string(b)+`}`)
+			}
+		}
 		emitCreate(a, b)
 	}
 }
@@ -1438,9 +1454,9 @@ func cliStream(n int, bin string) {
 					ops = append(ops, pg.genOp(cur))
 				}
 				content := joinOps(ops)
-				if chance(0.12) {
+				if chance(0.25) {
 					// data after the patch array: white space is fine, anything else is not a patch document
-					content = append(content, pick(" ", "\n", "]", "}", " ]", "\n}", "[]", " x", ",", "null")...)
+					content = append(content, pick(" ", "\n", "]", "]", "}", "}", " ]", "\n}", "\n]\n", "[]", " x", ",", "null")...)
 				}
 				os.WriteFile(path, content, 0o644)
 				files = append(files, "file:"+hx(content))
